@@ -122,10 +122,9 @@ def sh(cmd, **kw):
     return subprocess.run(cmd, shell=True, capture_output=True, text=True, **kw)
 
 
-def main():
-    n_want = int(sys.argv[1]) if len(sys.argv) > 1 else 60
-    seed = int(sys.argv[2]) if len(sys.argv) > 2 else 0
-    with_suite = not os.environ.get("AUTOMUT_NOSUITE")
+def candidates(seed):
+    """All mutants of the anchored functions, prepared, in the sampling order of `seed`:
+    (file, function, node, kind, properties, mutated text, new source, original text, key)."""
     anc = anchors()
     rng = random.Random(f"automut-{seed}")
     cands = []
@@ -155,18 +154,10 @@ def main():
         for k in order:
             if bykind[k]:
                 cands.append(bykind[k].pop())
-    os.makedirs(os.path.join(V, "automut"), exist_ok=True)
-    logp = os.path.join(V, "automut", "results.jsonl")
-    done = {}
-    if os.path.exists(logp):
-        for l in open(logp):
-            r = json.loads(l)
-            done[r["key"]] = r
-    picked = 0
+    out = []
+    srcs = {}
     for fn, q, node, kind, pids in cands:
-        if picked >= n_want:
-            break
-        src = open(os.path.join(SRC, fn)).read()
+        src = srcs.setdefault(fn, open(os.path.join(SRC, fn)).read())
         try:
             text = mutate(node, kind, random.Random(f"{seed}-{fn}-{node.lineno}-{node.col_offset}-{kind}"))
             new_src = splice(src, node, text)
@@ -177,6 +168,31 @@ def main():
         if " ".join(orig.split()) == " ".join(text.split()):
             continue
         key = f"{fn}:{node.lineno}:{node.col_offset}:{kind}:{text[:40]}"
+        out.append((fn, q, node, kind, pids, text, new_src, orig, key))
+    return out
+
+
+def main():
+    n_want = int(sys.argv[1]) if len(sys.argv) > 1 else 60
+    seed = int(sys.argv[2]) if len(sys.argv) > 2 else 0
+    with_suite = not os.environ.get("AUTOMUT_NOSUITE")
+    cands = candidates(seed)
+    only = None
+    if "--from" in sys.argv:
+        only = set(json.load(open(sys.argv[sys.argv.index("--from") + 1]))["survivors"])
+        cands = [c for c in cands if c[8] in only]
+        n_want = len(cands)
+    os.makedirs(os.path.join(V, "automut"), exist_ok=True)
+    logp = os.path.join(V, "automut", "results.jsonl")
+    done = {}
+    if os.path.exists(logp):
+        for l in open(logp):
+            r = json.loads(l)
+            done[r["key"]] = r
+    picked = 0
+    for fn, q, node, kind, pids, text, new_src, orig, key in cands:
+        if picked >= n_want:
+            break
         picked += 1
         if key in done:
             continue
